@@ -1312,6 +1312,11 @@ class Executor:
         if isinstance(e.op, ast.USub):
             if isinstance(v, (int, float)) and not isinstance(v, bool):
                 return -v
+            if isinstance(v, SFloat):
+                hook = getattr(self.ctx, "float_unop", None)
+                if hook is None:
+                    raise Unsupported("negation of a float")
+                return hook(self, e.op, v, e.lineno)
             return wrap(-as_int_term(self.unopt(v, e.lineno)))
         if isinstance(e.op, ast.UAdd):
             return v
